@@ -1,0 +1,5 @@
+//go:build !verif
+
+package utils
+
+func verifEvent(event string, size int, buf *byte) {}
